@@ -5,7 +5,7 @@ import hashlib, json, os, re
 import common as c
 
 SIZE = {"quick": (150, 22), "thorough": (3000, 40)}
-OPK = ("INIT", "BB", "TX", "AW", "BU", "EB", "CM")
+OPK = ("INIT", "BB", "TX", "AW", "BU", "EB", "CM", "RS", "HM")
 POW = 1000000
 
 
@@ -149,7 +149,18 @@ def replay_of(h, upto):
 import xicheck  # noqa: E402  (needs Obs and friends from this module)
 
 
-def run(a, prop, sections, oracle, what, compare_results=("TX", "EB", "INIT", "BB", "AW", "BU", "CM"), extra=None, bins=("app",)):
+def process_ended_inside_a_transaction(out):
+    """the driver died: if it was inside a DeliverTx, (history id, transaction, the history up to and including it)"""
+    try:
+        hid, op = open(os.path.join(out, "app.inflight")).read().split("\n")[:2]
+        lines = [l.rstrip("\n") for l in open(os.path.join(out, "app.ops"))]
+        start = max(i for i, l in enumerate(lines) if l.startswith("H %s " % hid) or l == "H " + hid)
+        return hid, op, lines[start:] + [op, "E"]
+    except Exception:
+        return None
+
+
+def run(a, prop, sections, oracle, what, compare_results=("TX", "HM", "EB", "INIT", "BB", "AW", "BU", "CM"), extra=None, bins=("app",)):
     res = c.build(list(bins))
     v = c.Verdict(prop, a.tier, a.seed)
     c.check_build(v, res, prop)
@@ -159,7 +170,13 @@ def run(a, prop, sections, oracle, what, compare_results=("TX", "EB", "INIT", "B
         return v.finish(ev)
     out, err = run_engine_cached(a, res)
     if err:
-        v.broken_obligation(err.split(":")[0], err)
+        died = process_ended_inside_a_transaction(out)
+        if died is not None:
+            v.violation({"engine": "app", "kind": "process-ended-inside-DeliverTx"},
+                        "the application process ended while executing `%s` (history %s): no response, no further blocks" % (died[1][:200], died[0]),
+                        {"history": died[2], "driver_output": err[-600:]})
+        else:
+            v.broken_obligation(err.split(":")[0], err)
         return v.finish(ev)
     model_path = os.path.join(out, "app.model") if (res.coq_ok and res.ocaml_ok) else None
     hists = parse_histories(os.path.join(out, "app.ops"), os.path.join(out, "app.impl"), model_path)
